@@ -460,6 +460,8 @@ func (e *racEnv) call(x *ECall) gval {
 			}
 		}
 		return gv(fmt.Sprintf("func() %s { if %s { return %s }; return %s }()", goType(p.k, p.elem), c, p.s, q.s), p.k, p.elem)
+	case "beval":
+		return gval{s: "new(big.Int).SetBytes(" + e.eval(a[0]).s + ")", k: gInt, elem: nil}
 	case "bytes":
 		return gval{s: "[]byte(" + e.eval(a[0]).s + ")", k: gSlice, elem: types.Universe.Lookup("byte").Type()}
 	case "len":
